@@ -25,6 +25,7 @@ const W_REUSE_ACKED: u64 = 4;
 const W_REUSE_LOCAL: u64 = 8;
 const W_TABLES_EMPTY: u64 = 16;
 const W_REOPEN_WHILE_HELD: u64 = 32;
+const W_LOCAL_REOPEN_WHILE_HELD: u64 = 64;
 
 fn victim_histories() -> (Vec<Vec<Op>>, Vec<Vec<Op>>) {
     let a = vec![
@@ -37,6 +38,7 @@ fn victim_histories() -> (Vec<Vec<Op>>, Vec<Vec<Op>>) {
     ];
     let b = vec![
         vec![Op::ReadToEof(2), Op::W(1), Op::W(1)],
+        vec![Op::ReadToEof(2), Op::WV(vec![1, 1]), Op::W(1)],
         vec![Op::W(2), Op::ReadToEof(2), Op::W(1)],
         vec![Op::W(1), Op::Drop],
         vec![Op::Shutdown, Op::ReadToEof(2)],
@@ -168,9 +170,13 @@ enum Cyc {
     /// old stream (it has read to EOF but not dropped it); then the application drops the old stream: the new stream
     /// (an "other stream on the connection") must keep its data and state
     PeerResetReopenWhileHeld,
+    /// endpoint opens (id 7), the peer resets the stream while the local application still HOLDS it; the application
+    /// opens another stream, whose request draws 7 again (free in the table); before the peer answers, the application
+    /// drops the old stream: the pending request must not be touched (one Connect, one stream)
+    LocalResetReopenWhileHeld,
 }
 
-const CYCS: [Cyc; 9] = [
+const CYCS: [Cyc; 10] = [
     Cyc::PeerOpenClean,
     Cyc::PeerOpenLocalAbort,
     Cyc::PeerOpenPeerReset,
@@ -180,6 +186,7 @@ const CYCS: [Cyc; 9] = [
     Cyc::LocalOpenRejectedOnce,
     Cyc::LocalOpenAbort,
     Cyc::PeerResetReopenWhileHeld,
+    Cyc::LocalResetReopenWhileHeld,
 ];
 
 struct B {
@@ -406,6 +413,69 @@ fn exec_b(seq: &[Cyc], render: bool) -> RunOutput {
                     }
                 }
             }
+            Cyc::LocalResetReopenWhileHeld => {
+                // first incarnation on id 7: established, then reset by the peer; the application reads EOF and keeps the stream
+                b.w.spawn_opener(0, tag, vec![tag], 9, EndPlan::SeqKeep(vec![Op::ReadToEof(4), Op::Park]));
+                let got = b.settle();
+                let ids: Vec<u32> = got.iter().filter_map(|m| if let RMsg::Frame(RFrame::Connect { id, .. }) = m { Some(*id) } else { None }).collect();
+                if ids != [7] {
+                    b.v("reuse.local-id-not-free", format!("cycle {pos} ({c:?}): the generator proposes 7 first and 7 must be free; Connect ids seen {ids:?}"));
+                }
+                b.raw.send(&RFrame::Acknowledge { id: 7, n: 2 });
+                b.raw.send(&RFrame::Reset { id: 7 });
+                b.settle();
+                // second request: draws 7 again (the table slot is gone), Connect(7) goes out, the peer does not answer yet
+                let tag2 = tag + 6; // 0x?e: used by no other variant
+                b.w.spawn_opener(0, tag2, vec![tag2], 9, EndPlan::SeqKeep(vec![Op::W(2), Op::Shutdown, Op::ReadToEof(4)]));
+                let got = b.settle();
+                let ids: Vec<u32> = got.iter().filter_map(|m| if let RMsg::Frame(RFrame::Connect { id, .. }) = m { Some(*id) } else { None }).collect();
+                let reused = ids == [7];
+                // the application drops the OLD stream while the new request is pending
+                let idx = b.w.sim.tasks.iter().position(|t| t.name == format!("s{tag}.a") && !t.done);
+                if let Some(i) = idx {
+                    b.w.sim.cancel_task(i);
+                    b.w.obs.borrow_mut().end(&format!("s{tag}.a"));
+                } else {
+                    b.v("harness.holder-missing", format!("cycle {pos}: the task holding the old stream is not there"));
+                }
+                let got_after_drop = b.settle();
+                if reused {
+                    b.wit |= W_LOCAL_REOPEN_WHILE_HELD;
+                    if !got_after_drop.is_empty() {
+                        b.v("abort.pending-request-disturbed", format!("cycle {pos} ({c:?}): dropping the OLD stream of flow 7 (already reset by the peer) while a NEW request is pending on that id must not put anything on the wire; got {got_after_drop:?}"));
+                    }
+                    // now the peer accepts the pending request
+                    b.raw.send(&RFrame::Acknowledge { id: 7, n: 2 });
+                    let got = b.settle();
+                    let pushes = got.iter().filter(|m| matches!(m, RMsg::Frame(RFrame::Push { id: 7, .. }))).count();
+                    let resets = got.iter().filter(|m| matches!(m, RMsg::Frame(RFrame::Reset { .. }))).count();
+                    let connects = got.iter().filter(|m| matches!(m, RMsg::Frame(RFrame::Connect { .. }))).count();
+                    if pushes != 1 || resets != 0 || connects != 0 || !got.iter().any(|m| matches!(m, RMsg::Frame(RFrame::Finish { id: 7 }))) {
+                        b.v("abort.pending-request-disturbed", format!("cycle {pos} ({c:?}): the request that was pending on flow 7 when the old stream was dropped must be established by the peer's Acknowledge and carry its write and Finish; got {got:?}"));
+                    }
+                    let data = payload(tag2, 1, 0, 1);
+                    b.raw.send(&RFrame::Push { id: 7, data: data.clone() });
+                    b.w.obs.borrow_mut().dir(tag2, 1).written.extend(&data);
+                    b.raw.send(&RFrame::Finish { id: 7 });
+                    b.settle();
+                    let obs = b.w.obs.borrow();
+                    let d = obs.dirs.get(&(tag2, 1)).cloned().unwrap_or_default();
+                    drop(obs);
+                    if d.read != d.written || !d.eof {
+                        b.v("abort.pending-request-disturbed", format!("cycle {pos} ({c:?}): the new stream read {:02x?} eof={} but the peer wrote {:02x?} and finished", d.read, d.eof, d.written));
+                    }
+                } else {
+                    // the endpoint kept the id reserved while the old stream was held (also fine): finish the exchange on whatever id it chose
+                    let Some(&nid) = ids.first() else {
+                        b.v("reopen.unanswered", format!("cycle {pos} ({c:?}): the second request put no Connect on the wire: {got:?}"));
+                        continue;
+                    };
+                    b.raw.send(&RFrame::Acknowledge { id: nid, n: 2 });
+                    b.settle();
+                    b.raw.send(&RFrame::Finish { id: nid });
+                    b.settle();
+                }
+            }
             Cyc::LocalOpenClean | Cyc::LocalOpenRejectedOnce | Cyc::LocalOpenAbort => {
                 let plan = match c {
                     Cyc::LocalOpenAbort => EndPlan::SeqKeep(vec![Op::W(2), Op::Drop]),
@@ -528,11 +598,11 @@ pub fn run(args: &Args) -> Report {
         fault: 0,
         total_wall: Duration::from_secs(if thorough { 1500 } else { 50 }),
         max_execs_per_case: 400_000,
-        required_witnesses: W_ABORT_SEEN | W_BYST_DONE | W_REUSE_ACKED | W_REUSE_LOCAL | W_TABLES_EMPTY | W_REOPEN_WHILE_HELD,
+        required_witnesses: W_ABORT_SEEN | W_BYST_DONE | W_REUSE_ACKED | W_REUSE_LOCAL | W_TABLES_EMPTY | W_REOPEN_WHILE_HELD | W_LOCAL_REOPEN_WHILE_HELD,
         adaptive: thorough,
-        witness_names: &[("abort_observed_as_eof", W_ABORT_SEEN), ("all_futures_completed", W_BYST_DONE), ("peer_reopen_of_same_id_acknowledged", W_REUSE_ACKED), ("local_reopen_drew_same_id", W_REUSE_LOCAL), ("flow_tables_empty_at_end", W_TABLES_EMPTY), ("peer_reopened_id_while_old_stream_still_held", W_REOPEN_WHILE_HELD)],
+        witness_names: &[("abort_observed_as_eof", W_ABORT_SEEN), ("all_futures_completed", W_BYST_DONE), ("peer_reopen_of_same_id_acknowledged", W_REUSE_ACKED), ("local_reopen_drew_same_id", W_REUSE_LOCAL), ("flow_tables_empty_at_end", W_TABLES_EMPTY), ("peer_reopened_id_while_old_stream_still_held", W_REOPEN_WHILE_HELD), ("local_request_pending_on_the_id_when_the_old_stream_is_dropped", W_LOCAL_REOPEN_WHILE_HELD)],
     };
-    rep.rule = "driver A: two real endpoints, a victim stream under every pair of close histories (shutdown?/drop/read orders with data in flight), a bystander stream with traffic both ways and a follow-up stream, all schedules <= k deviations: C05's reference model on the victim, bystander/follow-up must complete with equality, flow tables (hook) empty once nobody holds a stream. driver B: real endpoint + raw peer, every sequence of <= L open/close cycles over 9 variants (clean, local abort, peer reset, finish-first, overrun, locally opened clean/rejected/aborted, peer reset + re-open of the id while the local application still holds the old stream, which it then drops: the new stream must not be touched) re-using the SAME flow id at link quiescence: the re-opened id must be acknowledged (slot free, black box), start with fresh credit, empty buffer and no closed flag; the endpoint's scripted generator must draw the same id again".into();
+    rep.rule = "driver A: two real endpoints, a victim stream under every pair of close histories (shutdown?/drop/read orders with data in flight), a bystander stream with traffic both ways and a follow-up stream, all schedules <= k deviations: C05's reference model on the victim, bystander/follow-up must complete with equality, flow tables (hook) empty once nobody holds a stream. driver B: real endpoint + raw peer, every sequence of <= L open/close cycles over 10 variants (clean, local abort, peer reset, finish-first, overrun, locally opened clean/rejected/aborted, peer reset + re-open of the id while the local application still holds the old stream, which it then drops: the new stream must not be touched; the same with a NEW LOCAL REQUEST pending on the id when the old stream is dropped) re-using the SAME flow id at link quiescence: the re-opened id must be acknowledged (slot free, black box), start with fresh credit, empty buffer and no closed flag; the endpoint's scripted generator must draw the same id again".into();
     rep.assumptions = vec![
         "re-use is probed at link quiescence; a Reset/Push of the old incarnation still in flight when the id is re-used is outside the statement (no incarnation numbers in the protocol)".into(),
         "one poll = one atomic step".into(),
